@@ -81,6 +81,14 @@ impl Sub for ReservedKeys {
     t!("(String,Vec)", CustomClaim::try_from((k.to_string(), vec!["a".to_string()])));
     t!("(String,struct)", CustomClaim::try_from((k.to_string(), Point { x: 2, y: "q".into() })));
     t!("(String,Option)", CustomClaim::try_from((k.to_string(), Some(3u8))));
+    // value types at the edge of (or beyond) what JSON can carry: constructing the claim succeeds all the same
+    t!("(&str,u128)", CustomClaim::try_from((k, u128::MAX)));
+    t!("(String,i128)", CustomClaim::try_from((k.to_string(), i128::MIN)));
+    t!("(&str,f64::NAN)", CustomClaim::try_from((k, f64::NAN)));
+    t!("(&str,None)", CustomClaim::try_from((k, None::<String>)));
+    t!("(String,unit)", CustomClaim::try_from((k.to_string(), ())));
+    t!("(&str,tuple-keyed map)", CustomClaim::try_from((k, std::collections::BTreeMap::from([((1u8, 2u8), 3u8)]))));
+    t!("(String,u64::MAX)", CustomClaim::try_from((k.to_string(), u64::MAX)));
     if c.through_token && !RESERVED.contains(&k) && !k.is_empty() {
       cl.tag("through-token");
       let km = keys::material(Proto::V4L, &[21u8; 32]);
@@ -383,6 +391,37 @@ fn not_a_date() -> BoxedStrategy<String> {
 /// reserved key replaced by each code point congruent to it modulo 256, and all three replaced at once
 fn byte_truncation_confusables() -> Vec<KeyCase> {
   let mut v = vec![];
+  // keys whose TEXT is a JSON / Rust / URL escape spelling of a reserved key (backslash-u, percent, HTML entity ...): as key
+  // text they are ordinary keys
+  for r in ["iss", "sub", "aud", "exp", "nbf", "iat", "jti"] {
+    let chars: Vec<char> = r.chars().collect();
+    for pos in 0..=3usize {
+      for style in 0..6u8 {
+        let key: String = chars
+          .iter()
+          .enumerate()
+          .map(|(i, c)| {
+            if pos == 3 || i == pos {
+              match style {
+                0 => format!("\\u{:04x}", *c as u32),
+                1 => format!("\\u{:04X}", *c as u32),
+                2 => format!("%{:02x}", *c as u32),
+                3 => format!("&#{};", *c as u32),
+                4 => format!("\\x{:02x}", *c as u32),
+                _ => format!("\\u{{{:x}}}", *c as u32),
+              }
+            } else {
+              c.to_string()
+            }
+          })
+          .collect();
+        v.push(KeyCase { key, through_token: style == 0 && pos == 0 });
+      }
+    }
+    for deco in ["\"{}\"", "{}\\", "\\{}", "/{}", "{}/", "{}\u{0}"] {
+      v.push(KeyCase { key: deco.replace("{}", r), through_token: false });
+    }
+  }
   for r in ["iss", "sub", "aud", "exp", "nbf", "iat", "jti"] {
     let chars: Vec<char> = r.chars().collect();
     for pos in 0..3 {
@@ -438,8 +477,8 @@ pub fn run(ctx: &Ctx) -> EvidenceMeta {
   ];
   run_jobs(jobs);
   EvidenceMeta {
-    rule: "custom-claim keys: every string of length <= 4 over the 16-symbol alphabet {letters of iss/sub/aud/exp/nbf/iat/jti, 'E', space, NUL} (69,905 keys, exhaustive), every lower-case key of 1-3 letters (18,278, exhaustive), 40 claim names in common use elsewhere, every key obtained from a reserved key by replacing one character with a code point congruent to it modulo 256 (about 91 000), and generated case/whitespace/NUL/combining-mark/BOM decorations of the reserved keys and random Unicode keys, \
-           each through the three constructor forms (&str; (&str, T); (String, T)) with T in {&str, i64, bool, Vec, struct, serde_json::Value, Option}; oracle: Err(Reserved(k)) iff the key is exactly one of the seven, otherwise Ok with get_key() unchanged, and (sampled) the value arrives under that key through a built token. \
+    rule: "custom-claim keys: every string of length <= 4 over the 16-symbol alphabet {letters of iss/sub/aud/exp/nbf/iat/jti, 'E', space, NUL} (69,905 keys, exhaustive), every lower-case key of 1-3 letters (18,278, exhaustive), 40 claim names in common use elsewhere, every key obtained from a reserved key by replacing one character with a code point congruent to it modulo 256 (about 91 000), escape spellings of the reserved keys as key text (backslash-u, percent, entity), and generated case/whitespace/NUL/combining-mark/BOM decorations of the reserved keys and random Unicode keys, \
+           each through the three constructor forms (&str; (&str, T); (String, T)) with T in {&str, i64, bool, Vec, struct, serde_json::Value, Option, u128::MAX, i128::MIN, NaN, None, (), a tuple-keyed map, u64::MAX}; oracle: Err(Reserved(k)) iff the key is exactly one of the seven, otherwise Ok with get_key() unchanged, and (sampled) the value arrives under that key through a built token. \
            time claims: generated RFC 3339 date-times (upper-case T/Z or numeric offset, years 0000-9999, every day of the calendar, 0-30 fraction digits, leap seconds; every 29 February of the years 0000-9999 and every month end of ten chosen years) into the &str and String forms of ExpirationClaim/NotBeforeClaim/IssuedAtClaim: Ok, stored verbatim, verbatim in the token payload; \
            strings whose first four characters are not all ASCII digits and that do not begin with a sign, and RFC 3339 strings whose date part is spoilt by a sign, blank or letter inside the year / month / day field: Err(RFC3339Date). Non-trivial = key within edit distance 1 of a reserved key, or a time string with an offset/fraction or from the must-reject domain; distinct by input."
       .into(),
